@@ -19,6 +19,7 @@ Definition svis (x : xlabel) : option vlab :=
   | XS SCloseCall => Some VCloseCall | XS SCloseRet => Some VCloseRet
   | XS (SSeen c) => Some (VSeen c) | XS (SObsConn p s) => Some (VObsConn p s)
   | XS (SObsListed c b) => Some (VObsListed c b) | XS SQuiesce => Some VQuiesce
+  | XS SClose2Call => Some VClose2Call | XS SClose2Ret => Some VClose2Ret
   | XS _ => None
   end.
 Definition vpush (x : xlabel) (vo : list vlab) : list vlab :=
